@@ -32,7 +32,7 @@ fn info(tier: Tier) -> CheckInfo {
         id: "C05",
         level: "exploration",
         rule: format!(
-            "Tier {}: grammar neighbourhood of the 17 KRPC message shapes (8 queries, 8 responses, error): every field removed or replaced by each of 17 classes (wrong type int/bytes/list/dict, length 0 / n-1 / n+1 / 3000, negative / > i64 / leading-zero integers, empty list / mixed bad list / nested list / list with an empty, a short, a double-length element), all single deviations and all pairs of deviations; structural damage of every valid message (every truncation point, duplicated and unsorted keys, trailing bytes, t of length 0..5, v and ip of every length 0..19). Every datagram goes through the real decoder under catch_unwind (E3). Live (E1, real nodes on the simulated network): every single-deviation datagram is delivered (a) to a server-mode node, (b) to a client-mode node, (c) as the reply - right address, right transaction id - to an in-flight lookup of each kind, (d) as the reply of 1 or all of 3 storers to each put kind, together with every error code in {{201..207,301,302,0,-1,i32::MAX}}, and every mix of {{ack,203,205,301}} over the 3 storers in every arrival order; every reply-latency timeline of length {} over {{10 ms, 520 ms, 3 s}}. After each batch: no actor thread exited, a ping is answered (server), info() and a put+get round trip complete, no API call panicked. Distinct = distinct datagrams (generated without repetition).",
+            "Tier {}: grammar neighbourhood of the 17 KRPC message shapes (8 queries, 8 responses, error): every field removed or replaced by each of 17 classes (wrong type int/bytes/list/dict, length 0 / n-1 / n+1 / 3000, negative / > i64 / leading-zero integers, empty list / mixed bad list / nested list / list with an empty, a short, a double-length element), all single deviations and all pairs of deviations, and every subset of the listed fields absent at once; structural damage of every valid message (every truncation point, duplicated and unsorted keys, trailing bytes, t of length 0..5, v and ip of every length 0..19). Every datagram goes through the real decoder under catch_unwind (E3). Live (E1, real nodes on the simulated network): every single-deviation datagram and every absent-subset datagram that the decoder accepts is delivered (a) to a server-mode node, (b) to a client-mode node, (c) as the reply - right address, right transaction id - to an in-flight lookup of each kind, (d) as the reply of 1 or all of 3 storers to each put kind, together with every error code in {{201..207,301,302,0,-1,i32::MAX}}, and every mix of {{ack,203,205,301}} over the 3 storers in every arrival order; every reply-latency timeline of length {} over {{10 ms, 520 ms, 3 s}}. After each batch: no actor thread exited, a ping is answered (server), info() and a put+get round trip complete, no API call panicked. Distinct = distinct datagrams (generated without repetition).",
             tier.name(),
             if tier.is_quick() { 7 } else { 9 }
         ),
@@ -228,6 +228,38 @@ fn pairs(t: &Template, out: &mut dyn FnMut(String, Vec<u8>)) {
                     }
                 }
             }
+        }
+    }
+}
+
+/// Every subset of three or more of the template's fields absent at once (none, one and two
+/// absent fields are the template itself, `singles` and `pairs`).
+fn absent_subsets(t: &Template, out: &mut dyn FnMut(String, Vec<u8>)) {
+    let n = t.fields.len();
+    for mask in 0u32..(1u32 << n) {
+        if mask.count_ones() < 3 {
+            continue;
+        }
+        let mut m = t.msg.clone();
+        let mut ok = true;
+        let mut names = vec![];
+        for (i, f) in t.fields.iter().enumerate() {
+            if mask & (1 << i) != 0 {
+                match apply(&m, *f, 0) {
+                    Some(x) => m = x,
+                    None => {
+                        // the container itself is already gone
+                        ok = t.fields.iter().enumerate().any(|(j, g)| mask & (1 << j) != 0 && g.0.is_empty() && g.1 == f.0);
+                        if !ok {
+                            break;
+                        }
+                    }
+                }
+                names.push(format!("{}.{}", f.0, f.1));
+            }
+        }
+        if ok {
+            out(format!("{}:absent[{}]", t.name, names.join(",")), encode(&m));
         }
     }
 }
@@ -685,6 +717,7 @@ fn run(tier: Tier, shard: usize, nshards: usize, _seed: u64) -> Partial {
         };
         structural(t, &mut sink);
         pairs(t, &mut sink);
+        absent_subsets(t, &mut sink);
     }
     // ---- E1: live nodes
     let mut all_singles: Vec<(String, Vec<u8>)> = vec![];
@@ -696,6 +729,15 @@ fn run(tier: Tier, shard: usize, nshards: usize, _seed: u64) -> Partial {
             }
         };
         structural(t, &mut s);
+        // absent-field subsets: only those the real decoder lets through can reach the node's
+        // logic (socket.rs drops a datagram that does not decode before looking at it), the
+        // rest were judged by the decoder pass above
+        let mut s2 = |label: String, bytes: Vec<u8>| {
+            if quiet(|| catch(|| decode(&bytes).is_ok())).unwrap_or(false) {
+                all_singles.push((label, bytes));
+            }
+        };
+        absent_subsets(t, &mut s2);
     }
     let my: Vec<(String, Vec<u8>)> = all_singles.iter().enumerate().filter(|(i, _)| i % nshards == shard).map(|(_, g)| g.clone()).collect();
     live_unsolicited(true, &my, &mut out);
